@@ -149,7 +149,7 @@ class Ctx:
         self.cov['support_tests'][name] = self.cov['support_tests'].get(name, 0) + n
 
     # ---------------- Coq build and obligations -----------------
-    def build(self, files, generated=None):
+    def build(self, files, generated=None, obligation_files=None):
         """Full .vo build of the hand-written development, then the
         obligations (theorems of the property file) with Print Assumptions.
         `files` = list of .v paths relative to coq/ this property depends on, in dependency order;
@@ -157,7 +157,9 @@ class Ctx:
         `generated` = optional {relative path under coq/gen/...: Coq text} of definitions REGENERATED from /repo's
         current source by a translator on this run; they are (re)written only when their text changed, must also be
         listed in `files` (before the files that Require them), and every committed file that proves facts about them
-        (e.g. `forall args, generated_f args = model_f args`) is thereby re-checked against the current source."""
+        (e.g. `forall args, generated_f args = model_f args`) is thereby re-checked against the current source.
+        `obligation_files` = further files of `files` whose theorems (those followed by Print Assumptions) count as
+        obligations of this property besides the property file (the GenEq files of the translator tie)."""
         if generated:
             self.cov.setdefault('translated_spans', [])
             for rel, text in generated.items():
@@ -171,20 +173,33 @@ class Ctx:
                                 'supported construct would make a theorem speak about different code; mitigated by the '
                                 'correspondence run of the same definitions')
         ok, log, missing = build_files(files)
-        propfile = COQ / files[-1]
         bad_kw = forbidden_scan(files)
-        thms = re.findall(r'^\s*(?:Theorem|Lemma|Corollary)\s+(\w+)', propfile.read_text(), re.M)
-        self.obligations += len(thms)
-        self.cov['theorems'] = thms
-        axioms = {}
-        if not missing and not bad_kw:
-            axioms = print_assumptions(propfile)
+        # obligation files: the property file (last) plus every file that proves facts about regenerated definitions
+        obl_files = [files[-1]] + [f for f in (obligation_files or []) if f != files[-1]]
+        all_thms, axioms, undone = [], {}, []
+        for of in obl_files:
+            path = COQ / of
+            thms = re.findall(r'^\s*(?:Theorem|Lemma|Corollary)\s+(\w+)', path.read_text(), re.M) if path.exists() else []
+            names = re.findall(r'^\s*Print Assumptions\s+(\w+)\s*\.', path.read_text(), re.M) if path.exists() else []
+            thms = [t for t in thms if t in names] if of != files[-1] else thms   # helper lemmas without Print Assumptions are not obligations
+            if not path.exists():
+                undone.append(of + ':<file missing>')
+                self.obligations += 1
+                continue
+            self.obligations += len(thms)
+            all_thms += thms
+            ax = {}
+            if of not in missing and not bad_kw:
+                ax = print_assumptions(path)
+            axioms.update({t: ax[t] for t in thms if t in ax})
+            undone += [t for t in thms if t not in ax]
+        self.cov['theorems'] = all_thms
         self.axioms = axioms
-        done = [t for t in thms if t in axioms]
+        done = [t for t in all_thms if t in axioms]
         self.discharged += len(done)
         self.cov['checker_cmd'] = (
             'cd /verif/coq && ' + ' && '.join(f'coqc -Q . PV {g}' for g in files) + '  (full .vo compilation in dependency order; '
-            'the last file prints Print Assumptions per theorem; bin/setup = coq_makefile + make of everything)')
+            + ', '.join(obl_files) + ' print Print Assumptions per theorem; bin/setup = translator + coq_makefile + make of everything)')
         used = sorted({a for v in axioms.values() for a in v})
         self.cov['axioms'] = {k: v for k, v in axioms.items()}
         self.trusted.append('axioms reported by Print Assumptions: ' +
@@ -193,13 +208,31 @@ class Ctx:
             self.cov['coqchk'] = coqchk(files[-1])
             if not self.cov['coqchk'].get('ok'):
                 self.broken_obligation('coqchk', self.cov['coqchk'])
+            for of in obl_files[1:]:
+                r = coqchk(of)
+                self.cov.setdefault('coqchk_generated', []).append(r)
+                if not r.get('ok'):
+                    self.broken_obligation('coqchk', r)
         if bad_kw:
             self.broken_obligation('forbidden-keyword', {'hits': bad_kw[:10]})
-        if missing or len(done) != len(thms):
+        if missing or undone:
             self.broken_obligation('coq-build', {
-                'missing_vo': missing, 'undischarged': [t for t in thms if t not in axioms],
+                'missing_vo': missing, 'undischarged': undone,
                 'log_tail': log[-3000:]})
         return not missing
+
+    def build_with_translator(self, files):
+        """`build` + the translator tie: definitions regenerated from /repo's current source by harness/translate_all
+        and the committed CNN_GenEq.v that proves them equal to the model functions (inserted before the property file)."""
+        from . import translate_all
+        try:
+            gen, extra = translate_all.generated_for(self.pid)
+        except Exception as e:   # the translator itself failed: fail closed
+            self.broken_obligation('translator', {'error': repr(e)[:500]})
+            return self.build(files)
+        geneq = [f for f in extra if f.endswith('_GenEq.v')]
+        return self.build(files[:-1] + [f for f in extra if f not in files] + files[-1:], generated=gen,
+                          obligation_files=geneq)
 
     def broken_obligation(self, what, detail):
         """A proof obligation does not check: V has to decide; callers normally
